@@ -4,22 +4,22 @@ import OsmoVerif.Proofs.IncentivesSched
 
 namespace OsmoVerif.Incentives
 
-/-- the pays one snapshot gauge queues. -/
-def gaugePays (thr : Thr) (locks : List Lock) (g : Gauge) : List Pay :=
-  match distributeGauge thr locks g with
+/-- the pays one snapshot gauge queues, given the minimum-value cache it finds. -/
+def gaugePays (m : MinVal) (locks : List Lock) (g : Gauge) : List Pay :=
+  match distributeGauge m locks g with
   | some (some (_, pays)) => pays
   | _ => []
 
-/-- all pays of one `Distribute` call, in gauge order then lock order. -/
-def snapPays (thr : Thr) (locks : List Lock) : List Gauge → List Pay
-  | [] => []
-  | g :: gs => gaugePays thr locks g ++ snapPays thr locks gs
+/-- all pays of one `Distribute` call, in gauge order then lock order (the cache is handed from gauge to gauge). -/
+def snapPays : MinVal → List Lock → List Gauge → List Pay
+  | _, _, [] => []
+  | m, locks, g :: gs => gaugePays m locks g ++ snapPays (m.afterGauge locks g) locks gs
 
-theorem distributeLoop_info {thr : Thr} {locks : List Lock} {snap store : List Gauge} {info : Info}
+theorem distributeLoop_info {thr : MinVal} {locks : List Lock} {snap store : List Gauge} {info : Info}
     {store' : List Gauge} {info' : Info}
     (h : distributeLoop thr locks snap store info = some (store', info')) :
     info' = (snapPays thr locks snap).foldl addLockRewards info := by
-  induction snap generalizing store info with
+  induction snap generalizing store info thr with
   | nil => simp only [distributeLoop] at h; cases h; rfl
   | cons g gs ih =>
     simp only [distributeLoop] at h
@@ -36,6 +36,78 @@ theorem distributeLoop_info {thr : Thr} {locks : List Lock} {snap store : List G
         simp only at h
         simp only [snapPays, gaugePays, hd, List.foldl_append]
         exact ih h
+
+/-! ### the minimum-value cache along the gauge loop -/
+
+/-- every cached value is what a cache miss stores for the quotes of this `Distribute` call (the quote, or the
+zero sentinel when there is no route). -/
+def CacheOK (m : MinVal) : Prop := ∀ d c, assoc m.cache d = some c → c = m.missValue d
+
+theorem assoc_append_none {α : Type} {l : List (Denom × α)} {d e : Denom} {v : α} (h : assoc l d = none) :
+    assoc (l ++ [(e, v)]) d = if e = d then some v else none := by
+  induction l with
+  | nil => simp [assoc]
+  | cons x t ih =>
+    obtain ⟨a, b⟩ := x
+    simp only [assoc] at h
+    simp only [List.cons_append, assoc]
+    split
+    · rename_i hh; rw [if_pos hh] at h; cases h
+    · rename_i hh; rw [if_neg hh] at h; exact ih h
+
+theorem assoc_append_some {α : Type} {l : List (Denom × α)} {d e : Denom} {v c : α} (h : assoc l d = some c) :
+    assoc (l ++ [(e, v)]) d = some c := by
+  induction l with
+  | nil => simp [assoc] at h
+  | cons x t ih =>
+    obtain ⟨a, b⟩ := x
+    simp only [assoc] at h
+    simp only [List.cons_append, assoc]
+    split
+    · rename_i hh; rw [if_pos hh] at h; exact h
+    · rename_i hh; rw [if_neg hh] at h; exact ih h
+
+theorem MinVal.after_quotes (m : MinVal) (remain : Coins) : (m.after remain).quotes = m.quotes := rfl
+
+theorem MinVal.afterGauge_quotes (m : MinVal) (locks : List Lock) (g : Gauge) : (m.afterGauge locks g).quotes = m.quotes := by
+  unfold MinVal.afterGauge
+  split <;> rfl
+
+/-- the fold of `MinVal.after` keeps every cached value and caches only miss values. -/
+theorem after_fold_ok (m : MinVal) (remain : Coins) (cache : Cache)
+    (h : ∀ d c, assoc cache d = some c → c = m.missValue d) :
+    ∀ d c, assoc (remain.foldl (fun cache c =>
+      if c.1 = Gen.Incentives.BaseCoinUnit ∨ (assoc cache c.1).isSome then cache else cache ++ [(c.1, m.missValue c.1)]) cache) d = some c →
+      c = m.missValue d := by
+  induction remain generalizing cache with
+  | nil => exact h
+  | cons x t ih =>
+    simp only [List.foldl_cons]
+    apply ih
+    intro d c hc
+    split at hc
+    · exact h d c hc
+    · rename_i hn
+      cases hd : assoc cache d with
+      | some c0 => rw [assoc_append_some hd] at hc; injection hc with hc; rw [← hc]; exact h d c0 hd
+      | none =>
+        rw [assoc_append_none hd] at hc
+        split at hc
+        · rename_i he; cases hc; rw [he]
+        · cases hc
+
+theorem CacheOK_after {m : MinVal} (h : CacheOK m) (remain : Coins) : CacheOK (m.after remain) := by
+  intro d c hc
+  show c = m.missValue d
+  exact after_fold_ok m remain m.cache h d c hc
+
+theorem CacheOK_afterGauge {m : MinVal} (h : CacheOK m) (locks : List Lock) (g : Gauge) : CacheOK (m.afterGauge locks g) := by
+  unfold MinVal.afterGauge
+  split
+  · exact CacheOK_after h _
+  · exact h
+
+theorem CacheOK_empty (q : Quotes) : CacheOK ⟨q, []⟩ := fun d c h => by simp [assoc] at h
 
 /-- what address `r` is sent of denom `d`. -/
 def recvAmt : Info → Nat → Denom → Int
@@ -112,13 +184,16 @@ theorem mem_setGauge_self {gs : List Gauge} {g0 g' : Gauge} (hm : g0 ∈ gs) (hi
   unfold setGauge
   exact List.mem_map.mpr ⟨g0, hm, by rw [if_pos hid.symm]⟩
 
-theorem distributeLoop_result {thr : Thr} {locks : List Lock} {snap store : List Gauge} {info : Info}
+/-- the record of a snapshot gauge after the loop: there is a cache state `m` (same quotes, consistent when the
+initial one is) — the one the gauge finds — under which `distributeGauge` does not fail and decides the record. -/
+theorem distributeLoop_result {thr : MinVal} {locks : List Lock} {snap store : List Gauge} {info : Info}
     {store' : List Gauge} {info' : Info}
     (h : distributeLoop thr locks snap store info = some (store', info'))
     (hm : ∀ g ∈ snap, g ∈ store) (hsn : (snap.map (·.id)).Nodup) {g : Gauge} (hg : g ∈ snap) :
-    (∀ total pays, distributeGauge thr locks g = some (some (total, pays)) → g.postDistribute total ∈ store') ∧
-    (distributeGauge thr locks g = some none → g ∈ store') := by
-  induction snap generalizing store info with
+    ∃ m : MinVal, m.quotes = thr.quotes ∧ (CacheOK thr → CacheOK m) ∧ distributeGauge m locks g ≠ none ∧
+    (∀ total pays, distributeGauge m locks g = some (some (total, pays)) → g.postDistribute total ∈ store') ∧
+    (distributeGauge m locks g = some none → g ∈ store') := by
+  induction snap generalizing store info thr with
   | nil => cases hg
   | cons g0 gs ih =>
     simp only [List.map_cons, List.nodup_cons] at hsn
@@ -131,6 +206,7 @@ theorem distributeLoop_result {thr : Thr} {locks : List Lock} {snap store : List
       rw [hd] at h
       rcases List.mem_cons.mp hg with rfl | hg'
       · -- the head gauge: nothing later has its id
+        refine ⟨thr, rfl, id, (by rw [hd]; exact Option.some_ne_none _), ?_⟩
         cases r with
         | none =>
           refine ⟨fun total pays hh => (by rw [hd] at hh; cases hh), fun _ => ?_⟩
@@ -143,8 +219,13 @@ theorem distributeLoop_result {thr : Thr} {locks : List Lock} {snap store : List
           injection hh with hh; injection hh with hh; injection hh with h1 h2
           subst h1
           exact distributeLoop_untouched h (mem_setGauge_self hg0 rfl) hsn.1
-      · cases r with
-        | none => exact ih h hgs hsn.2 hg'
+      · have lift : ∀ {P : MinVal → Prop}, (∃ m : MinVal, m.quotes = (thr.afterGauge locks g0).quotes ∧
+            (CacheOK (thr.afterGauge locks g0) → CacheOK m) ∧ P m) →
+            ∃ m : MinVal, m.quotes = thr.quotes ∧ (CacheOK thr → CacheOK m) ∧ P m := by
+          rintro P ⟨m, h1, h2, h3⟩
+          exact ⟨m, by rw [h1, MinVal.afterGauge_quotes], fun hc => h2 (CacheOK_afterGauge hc _ _), h3⟩
+        cases r with
+        | none => exact lift (ih h hgs hsn.2 hg')
         | some tp =>
           obtain ⟨total, pays⟩ := tp
           simp only at h
@@ -153,7 +234,7 @@ theorem distributeLoop_result {thr : Thr} {locks : List Lock} {snap store : List
             refine mem_setGauge_of_ne (hgs x hx) ?_
             intro hh
             exact hsn.1 (List.mem_map.mpr ⟨x, hx, hh⟩)
-          exact ih h hgs1 hsn.2 hg'
+          exact lift (ih h hgs1 hsn.2 hg')
 
 /-- an upcoming id is, after activation, still upcoming or in the active snapshot. -/
 theorem activate_split {now : Int} {up act up' act' : Refs} (h : activate now up act = some (up', act')) :
@@ -195,40 +276,32 @@ def undistributed (s : State) (d : Denom) : Int :=
 /-- ⌊R·a / (S·e)⌋ (`/` on `Int` is floor division for a positive divisor). -/
 def floorShare (R : Int) (a : Nat) (S e : Int) : Int := R * (a : Int) / (S * e)
 
-/-- what a lock with amount `a` is owed of denom `d` by a gauge with remainder `R`: the floor share, unless
-it is worth less than the minimum (or the denom has no value at all: no entry in `thr`) or is zero. -/
-def owedToLock (thr : Thr) (d : Denom) (R : Int) (a : Nat) (S e : Int) : Int :=
-  if valuable thr d (floorShare R a S e) && decide (0 < floorShare R a S e) then floorShare R a S e else 0
+/-- what a lock with amount `a` is owed of denom `d` by a gauge with remainder `R` under the value filter `f`:
+the floor share, unless it is filtered (worth less than the minimum / no value at all) or is zero. -/
+def owedToLock (f : Filter) (d : Denom) (R : Int) (a : Nat) (S e : Int) : Int :=
+  if f d (floorShare R a S e) && decide (0 < floorShare R a S e) then floorShare R a S e else 0
 
 /-- the queue entry of one lock. -/
-def payOf (thr : Thr) (remain : Coins) (den : Int) (l : Lock) : Option Pay :=
-  if (lockCoins thr remain den l.amount).isEmpty then none
-  else some ⟨l.owner, l.rewardReceiver, lockCoins thr remain den l.amount⟩
+def payOf (f : Filter) (remain : Coins) (den : Int) (l : Lock) : Option Pay :=
+  if (lockCoins f remain den l.amount).isEmpty then none
+  else some ⟨l.owner, l.rewardReceiver, lockCoins f remain den l.amount⟩
 
-theorem lockPays_eq_filterMap (thr : Thr) (remain : Coins) (den : Int) (ls : List Lock) :
-    lockPays thr remain den ls = ls.filterMap (payOf thr remain den) := by
+theorem lockPays_same_eq_filterMap (f : Filter) (remain : Coins) (den : Int) (ls : List Lock) :
+    lockPays f f remain den ls = ls.filterMap (payOf f remain den) := by
   induction ls with
   | nil => rfl
   | cons l ls ih =>
     simp only [lockPays, List.filterMap_cons, payOf]
     split <;> simp [ih]
 
-/-- the gauge loop fails as a whole when one snapshot gauge fails. -/
-theorem loop_fails {thr : Thr} {locks : List Lock} {g : Gauge} {sn st : List Gauge} {inf : Info} (hm : g ∈ sn)
-    (hd : distributeGauge thr locks g = none) : ¬ ∃ r, distributeLoop thr locks sn st inf = some r := by
-  induction sn generalizing st inf with
-  | nil => cases hm
-  | cons x xs ih =>
-    rintro ⟨r, hl'⟩
-    simp only [distributeLoop] at hl'
-    rcases List.mem_cons.mp hm with rfl | hm'
-    · rw [hd] at hl'; cases hl'
-    · cases hx : distributeGauge thr locks x with
-      | none => rw [hx] at hl'; cases hl'
-      | some rr =>
-        rw [hx] at hl'
-        cases rr with
-        | none => exact ih hm' ⟨r, hl'⟩
-        | some tp => exact ih hm' ⟨r, hl'⟩
+/-- the lock loop: the first lock under `f`, the others under `f'`. -/
+theorem lockPays_eq_filterMap (f f' : Filter) (remain : Coins) (den : Int) (ls : List Lock) :
+    lockPays f f' remain den ls = (ls.take 1).filterMap (payOf f remain den) ++ (ls.drop 1).filterMap (payOf f' remain den) := by
+  cases ls with
+  | nil => rfl
+  | cons l ls =>
+    simp only [lockPays, List.take_succ_cons, List.take_zero, List.drop_succ_cons, List.drop_zero, List.filterMap_cons,
+      List.filterMap_nil, payOf, lockPays_same_eq_filterMap]
+    split <;> simp
 
 end OsmoVerif.Incentives
